@@ -679,6 +679,11 @@ func (bal *Balancer) balanceBlock(blkid arvados.SizedDigest, blk *BlockState) ba
 		// trashing replicas that aren't optimal positions for
 		// any storage class.
 		protMnt := map[*KeepMount]bool{}
+		// Devices whose replica has been protected via one
+		// of their mounts. A device mounted on multiple
+		// servers holds a single replica, which must be
+		// counted only once in replProt.
+		protDev := map[string]bool{}
 		// Replication planned so far (corresponds to wantMnt).
 		replWant := 0
 		// Protected replication (corresponds to protMnt).
@@ -694,9 +699,12 @@ func (bal *Balancer) balanceBlock(blkid arvados.SizedDigest, blk *BlockState) ba
 				// different server.
 				return false
 			}
-			if replProt < desired && slot.repl != nil && !protMnt[slot.mnt] {
+			if replProt < desired && slot.repl != nil && !protMnt[slot.mnt] && !protDev[slot.mnt.DeviceID] {
 				unsafeToDelete[slot.repl.Mtime] = true
 				protMnt[slot.mnt] = true
+				if slot.mnt.DeviceID != "" {
+					protDev[slot.mnt.DeviceID] = true
+				}
 				replProt += slot.mnt.Replication
 			}
 			if replWant < desired && (slot.repl != nil || !slot.mnt.ReadOnly) {
@@ -731,9 +739,15 @@ func (bal *Balancer) balanceBlock(blkid arvados.SizedDigest, blk *BlockState) ba
 
 		if !underreplicated {
 			safe := 0
+			safeDev := map[string]bool{}
 			for _, slot := range slots {
-				if slot.repl == nil || !bal.mountsByClass[class][slot.mnt] {
+				if slot.repl == nil || !bal.mountsByClass[class][slot.mnt] || safeDev[slot.mnt.DeviceID] {
 					continue
+				}
+				if slot.mnt.DeviceID != "" {
+					// Count a device mounted on
+					// multiple servers only once.
+					safeDev[slot.mnt.DeviceID] = true
 				}
 				if safe += slot.mnt.Replication; safe >= desired {
 					break
